@@ -553,3 +553,23 @@ Proof.
   - destruct Hj as [Hne Hall]. split; [assumption|]. intros k Hk. destruct (Hall k Hk) as [H1 H2].
     split; [rewrite <- Hnew; exact H1 | exact H2].
 Qed.
+
+(* ------------------------------------------------------------ a rejected Set changes nothing *)
+(* Set() returning an error (validate: non-IPv4 prefix, > 63 communities) leaves
+   the session -- in particular a pending, already accepted request -- exactly
+   as it was: inserting such a call anywhere in a history changes neither the
+   state reached nor the set the peer must converge to. *)
+Theorem rejected_set_is_noop c es1 : forall es2 w,
+  run c w (es1 ++ ESetRejected :: es2) = run c w (es1 ++ es2) /\
+  forall acc, last_set (es1 ++ ESetRejected :: es2) acc = last_set (es1 ++ es2) acc.
+Proof.
+  induction es1 as [|e es1 IH]; intros es2 w.
+  - split; reflexivity.
+  - split.
+    + cbn [app run]. destruct (step c w e) as [w1|]; [apply IH | reflexivity].
+    + intros acc. cbn [app]. destruct e; cbn [last_set]; apply IH; exact w.
+Qed.
+
+Theorem rejected_set_keeps_pending c w w' : step c w ESetRejected = Some w' ->
+  w' = w /\ pending (ws w') = pending (ws w) /\ desired w' = desired w.
+Proof. cbn [step]. intros [= <-]. auto. Qed.
